@@ -52,6 +52,7 @@ type Case struct {
 	Vars      map[string]bool   `json:"vars,omitempty"`
 	Refresh   bool              `json:"refresh,omitempty"`
 	QueryText string            `json:"query_text,omitempty"` // if set, used verbatim instead of Query/Frags
+	Mutation  bool              `json:"mutation,omitempty"`   // the selection set is run as a mutation (the services mirror their Query fields on Mutation)
 }
 
 // ---- universe: all fields of all types, then a partition over services ----
@@ -160,6 +161,9 @@ func partition(r *vh.Rng, u *universe, nSvc int) ([]fedgen.Service, map[string][
 // monolith: one non-federated service with every field.
 func monolith(svcs []fedgen.Service) fedgen.Service {
 	m := fedgen.Service{Name: "mono", Federated: false}
+	for _, s := range svcs {
+		m.MirrorMutation = m.MirrorMutation || s.MirrorMutation
+	}
 	seenQ := map[string]bool{}
 	objs := map[string]*fedgen.Object{}
 	var order []string
@@ -404,7 +408,7 @@ func (g *qgen) selsFor(typ string, depth int) []Sel {
 			}
 			if name != "" {
 				sp := Sel{Spread: name}
-				if r.Chance(15) {
+				if r.Chance(25) {
 					g.dirs(&sp)
 				}
 				if r.Bool() {
@@ -445,7 +449,26 @@ func (g *qgen) selsFor(typ string, depth int) []Sel {
 			}
 			out = append(out, sp)
 			if r.Chance(30) {
-				out = append(out, Sel{Spread: name}) // spread twice (the directives of one spread are its own)
+				// spread twice: the directives of one spread are its own -- also when both spreads carry the same
+				// directive with different conditions
+				sp2 := Sel{Spread: name}
+				if sp.Dir != nil && r.Chance(70) {
+					d := *sp.Dir
+					d.Val = !d.Val
+					if d.Var != "" {
+						d.Var = fmt.Sprintf("v%d", g.nextVar)
+						g.nextVar++
+						g.vars[d.Var] = d.Val
+					}
+					sp2.Dir = &d
+					if sp.Dir2 != nil {
+						d2 := *sp.Dir2
+						sp2.Dir2 = &d2
+					}
+				} else if r.Chance(30) {
+					g.dirs(&sp2)
+				}
+				out = append(out, sp2)
 			}
 			g.stats["named-fragment"]++
 		} else {
@@ -668,7 +691,11 @@ func (c *Case) text() string {
 		return c.QueryText
 	}
 	var b strings.Builder
-	b.WriteString("query Q")
+	if c.Mutation {
+		b.WriteString("mutation Q")
+	} else {
+		b.WriteString("query Q")
+	}
 	if len(c.Vars) > 0 {
 		var ks []string
 		for k := range c.Vars {
@@ -723,5 +750,38 @@ func genCase(r *vh.Rng) Case {
 	c.Frags = g.frags
 	c.Vars = g.vars
 	c.Refresh = r.Chance(10)
+	if r.Chance(14) {
+		asMutation(r, &c, owners)
+	}
 	return c
+}
+
+// asMutation turns the case into a mutation: the root selections that live on one single service (a mutation
+// may have one step below the root only) are kept and run against Mutation, on which every service mirrors its
+// Query fields.  Objects returned by the mutation still have fields on other services: hops below a mutation.
+func asMutation(r *vh.Rng, c *Case, owners map[string][]string) {
+	bySvc := map[string][]Sel{}
+	var order []string
+	for _, s := range c.Query {
+		if s.On != "" || s.Spread != "" || s.Name == "__typename" {
+			continue
+		}
+		o := owners["Query."+s.Name]
+		if len(o) != 1 {
+			continue
+		}
+		if bySvc[o[0]] == nil {
+			order = append(order, o[0])
+		}
+		bySvc[o[0]] = append(bySvc[o[0]], s)
+	}
+	if len(order) == 0 {
+		return
+	}
+	c.Query = bySvc[order[r.Intn(len(order))]]
+	c.Mutation = true
+	c.Refresh = false
+	for i := range c.Services {
+		c.Services[i].MirrorMutation = true
+	}
 }
